@@ -406,6 +406,17 @@ func conflatedContext(c *Ctx) {
 			first = true
 		}
 	}
+	// ... on every way out: what ConflatedContext returns is that derived context (also when every input was already
+	// cancelled - a shared pre-cancelled context would drop the first input's values)
+	for _, r := range returnsOf(fn) {
+		okr := true
+		for _, v := range c.retVals(r, 0) {
+			if !P.IsCallResult(v, "context.WithCancel", 0) {
+				okr = false
+			}
+		}
+		q.add("PROV", "every return hands back the context derived from the first input", okr, pickS(okr, "the returned context is WithCancel's result", "ConflatedContext can return a context that is not derived from its first input: the result would not carry that input's values"), r)
+	}
 	q.add("PROV", "the result carries the first input's values but not its cancellation", okp && first, pickS(okp && first, "WithCancel(WithoutCancel(contexts[0]))", "the result is not built on WithoutCancel(contexts[0]): cancelling the first input alone would cancel the result"), wcs[0])
 	// per live input: wg.Add(1) next to ChainAfterFunc(result, input, wg.Done)
 	chains := P.CallsTo(fn, "ChainAfterFunc")
